@@ -65,6 +65,7 @@ type Annot struct { // things attached to a cut or a loop head
 	Lemmas     []LemmaCall
 	Invariants []EnsuresClause
 	Havoc      []string
+	BackInv    []EnsuresClause // asserted only when the loop head is reached through a back edge (end of an iteration)
 	Derive     []EnsuresClause // proved after havoc from the assumed invariants (small VCs), then assumed
 	GhostPost  []GhostStmt     // ghost updates after havoc/assume
 	Assumes    []*SpecExpr // only allowed with explicit "assumed" justification; listed in evidence
@@ -108,6 +109,7 @@ type Contract struct {
 var reEns = regexp.MustCompile(`^ensures(?:\[([^\]]+)\])?\s+(.*)$`)
 var reInv = regexp.MustCompile(`^invariant(?:\[([^\]]+)\])?\s+(.*)$`)
 var reDer = regexp.MustCompile(`^derive(?:\[([^\]]+)\])?\s+(.*)$`)
+var reBack = regexp.MustCompile(`^backedge(?:\[([^\]]+)\])?\s+(.*)$`)
 var reCut = regexp.MustCompile(`^(?:after|before)\s+(store|def|call|block)\s*(\S*)\s+#(\d+)$`)
 
 func splitTop(s, sep string) []string {
@@ -257,7 +259,7 @@ func ParseContracts(file string) ([]*Contract, error) {
 		if i := strings.IndexAny(line, " \t"); i >= 0 {
 			kw, rest = line[:i], strings.TrimSpace(line[i+1:])
 		}
-		if strings.HasPrefix(kw, "ensures[") || strings.HasPrefix(kw, "invariant[") || strings.HasPrefix(kw, "derive[") {
+		if strings.HasPrefix(kw, "ensures[") || strings.HasPrefix(kw, "invariant[") || strings.HasPrefix(kw, "derive[") || strings.HasPrefix(kw, "backedge[") {
 			// keyword with bracket name: re-split using regex below
 			kw = kw[:strings.Index(kw, "[")]
 		}
@@ -305,6 +307,20 @@ func ParseContracts(file string) ([]*Contract, error) {
 				for _, v := range strings.Split(rest, ",") {
 					ann.Havoc = append(ann.Havoc, strings.TrimSpace(v))
 				}
+			case "backedge":
+				m := reBack.FindStringSubmatch(line)
+				if m == nil {
+					return nil, fail(fmt.Errorf("bad backedge clause"))
+				}
+				e, err := parseSpec(m[2])
+				if err != nil {
+					return nil, fail(err)
+				}
+				nm := m[1]
+				if nm == "" {
+					nm = fmt.Sprintf("b%d", len(ann.BackInv)+1)
+				}
+				ann.BackInv = append(ann.BackInv, EnsuresClause{nm, e})
 			case "derive":
 				m := reDer.FindStringSubmatch(line)
 				if m == nil {
